@@ -28,6 +28,27 @@ class World(object):
     pass
 
 
+def partners_proxy(oset, w, name):
+    '''Implementation-only state of one partner set (xtuml.OrderedSet: doubly linked list + map).  Empty text while the
+    backward chain and the map agree with forward iteration -- so sound trees get no additional states -- and the
+    disagreeing views otherwise (such a set answers the next calls differently although navigation looks the same).'''
+    try:
+        end = oset.end
+        fwd, cur = [], end[2]
+        while cur is not end and len(fwd) < 32:
+            fwd.append(cur[0]); cur = cur[2]
+        bwd, cur = [], end[1]
+        while cur is not end and len(bwd) < 32:
+            bwd.append(cur[0]); cur = cur[1]
+        keys = list(oset.map)
+    except Exception:
+        return ''
+    lab = lambda xs: [name.get(w.label.get(x), '?') for x in xs]
+    if bwd[::-1] == fwd and len(keys) == len(fwd) and all(k in oset.map for k in fwd):
+        return ''
+    return ':views-differ(fwd=%s,bwd=%s,map=%s)' % (lab(fwd), lab(bwd), sorted(lab(keys)))
+
+
 class LinkModel(explorer.Model):
     def __init__(self, schema, cap):
         self.schema = schema
@@ -196,7 +217,8 @@ class LinkModel(explorer.Model):
             proxy = []
             for ukind in sorted(w.m.metaclasses):
                 for key, link in sorted(w.m.metaclasses[ukind].links.items(), key=repr):
-                    owners = sorted(name.get(w.label.get(inst), '?') + ('' if len(link[inst]) else ':empty') for inst in link.keys())
+                    owners = sorted(name.get(w.label.get(inst), '?') + ('' if len(link[inst]) else ':empty') + partners_proxy(link[inst], w, name)
+                                    for inst in link.keys())
                     proxy.append([ukind, repr(key), owners])
         except Exception:
             proxy = None
@@ -390,11 +412,23 @@ CAPS = {
 }
 
 
+# a second, lopsided set of caps for the to-many shapes (quick tier): one instance at the single end, three at the many end
+# (the third partner of one instance: remove the most recently related partner while another remains, then relate a new one)
+CAPS_LOPSIDED = {
+    'b_1_mc': {'A': 1, 'B': 3},
+    'd_m_m': {'A': 1, 'B': 3},
+    'c_mc_1c_other_side': {'A': 3, 'B': 1},
+}
+
+
 def models(ctx):
     out = []
     for schema in schemas.shapes() + schemas.extra_shapes():
         caps = CAPS[schema.name][0 if ctx.quick else 1]
         out.append(CappedModel(schema, max(caps.values()), caps))
+        if ctx.quick and schema.name in CAPS_LOPSIDED:
+            caps = CAPS_LOPSIDED[schema.name]
+            out.append(CappedModel(schema, max(caps.values()), caps))
     return out
 
 
@@ -402,7 +436,8 @@ def run(ctx):
     total = 0
     for m in explorer.rotate(models(ctx), ctx.seed):
         schema = m.schema
-        res = explorer.bfs(ctx, m, chunk=8, label=schema.name, budget_s=None if ctx.quick else 400)
+        res = explorer.bfs(ctx, m, chunk=8, label=schema.name + ('' if m.caps == CAPS[schema.name][0 if ctx.quick else 1] else ':lopsided'),
+                           budget_s=None if ctx.quick else 400)
         total += res['states']
         print('  %-28s caps=%s states=%d depth=%d closed=%s t=%.0fs' % (schema.name, m.caps, res['states'], res['depth'], res['closed'], ctx.elapsed()), flush=True)
         ctx.sample(dict(schema=schema.name, caps=m.caps, states=res['states'], closed=res['closed'],
@@ -456,6 +491,7 @@ def coverage(ctx):
              'arguments, repeated delete) is executed in every reachable canonical state; distinct_nontrivial counts distinct '
              '(schema, operation, outcome) triples',
         per_schema=dict((k, v) for k, v in ctx.notes.items() if isinstance(v, dict)),
-        bounds=dict(pool_caps=dict((k, v[0 if ctx.quick else 1]) for k, v in CAPS.items())),
+        bounds=dict(pool_caps=dict((k, v[0 if ctx.quick else 1]) for k, v in CAPS.items()),
+                    second_search_with_lopsided_caps=CAPS_LOPSIDED if ctx.quick else {}),
         exhaustive=bool(closed) and not ctx.caps_hit,
     )
